@@ -52,11 +52,6 @@ package vecengine
 //@   ensures  [told] old(gPend[vi.vecDb]) != 0 && vi.callback.OnDropNotFlushed != nil ==> nOnDrop == old(nOnDrop) + 1 && gFlDropN == old(gFlDropN) + 1
 //@   ensures  [quiet] old(gPend[vi.vecDb]) == 0 ==> nOnDrop == old(nOnDrop) && gFlDropN == old(gFlDropN)
 //@
-//@ package github.com/Fantom-foundation/lachesis-base/kvdb/flushable
-//@ // assumed here, proved under C22: a new wrapper has no unflushed pairs
-//@ trusted func WrapWithDrop
-//@   requires parent != nil
-//@   ensures  fresh(result) && gPend[box(result, "*Flushable")] == 0
 //@ package github.com/Fantom-foundation/lachesis-base/kvdb/table
 //@ trusted func MigrateTables
 //@ package github.com/Fantom-foundation/lachesis-base/vecengine
